@@ -343,7 +343,7 @@ struct ValueFlowAnalyzer : Analyzer {
                         // conversion to bool: 0 stays 0, every other value becomes 1
                         value->intvalue = (value->intvalue != 0) ? 1 : 0;
                     else if (sz > 0 && sz < sizeof(MathLib::biguint))
-                        value->intvalue = ValueFlow::truncateIntValue(value->intvalue, sz, dst->sign);
+                        value->intvalue = ValueFlow::truncateIntValue(value->intvalue, sz, ValueFlow::getConversionSign(*dst, settings));
                 }
                 std::string info("Compound assignment '" + tok->astParent()->str() + "', assigned value is " +
                                  value->infoString());
@@ -377,7 +377,7 @@ struct ValueFlowAnalyzer : Analyzer {
                         value->bound = ValueFlow::Value::Bound::Lower;
                     }
                 } else if (sz > 0 && sz < sizeof(MathLib::biguint)) {
-                    MathLib::bigint newvalue = ValueFlow::truncateIntValue(value->intvalue, sz, dst->sign);
+                    MathLib::bigint newvalue = ValueFlow::truncateIntValue(value->intvalue, sz, ValueFlow::getConversionSign(*dst, settings));
 
                     /* Handle overflow/underflow for value bounds */
                     if (value->bound != ValueFlow::Value::Bound::Point) {
